@@ -2,10 +2,12 @@
 
 package lib
 
+import "github.com/refraction-networking/conjure/pkg/zzverif/vsched"
+
 // VerifStateKey digests the shared registry state (for explorer state keys).
 func (rm *RegistrationManager) VerifStateKey() uint64 {
 	h := uint64(1469598103934665603)
-	for _, c := range []byte(rm.VerifDumpFull()) {
+	for _, c := range []byte(rm.VerifDumpFull() + rm.VerifDumpAges(vsched.VNow())) {
 		h = (h ^ uint64(c)) * 1099511628211
 	}
 	return h ^ rm.registeredDecoys.m.VerifState()<<7
